@@ -17,6 +17,7 @@ import (
 	"github.com/transparency-dev/merkle/rfc6962"
 	"github.com/transparency-dev/witness/internal/client"
 	"github.com/transparency-dev/witness/internal/config"
+	"github.com/transparency-dev/witness/internal/feeder"
 	"github.com/transparency-dev/witness/internal/feeder/sumdb"
 	"github.com/transparency-dev/witness/verifmc/ev"
 	"github.com/transparency-dev/witness/verifmc/ref6962"
@@ -323,7 +324,7 @@ func c18(tier string) int {
 				witCP := u.Sign(uni.Body(origin, uint64(p.from), u.Main.Root(p.from)), u.K1.Signer, u.W1.CosigSigner)
 				sw := &c18Witness{latest: witCP}
 				ctx, release := wh.NoRetryContext(context.Background())
-				err := sumdb.FeedLog(ctx, cl, sw, &http.Client{Transport: srv}, 0)
+				err := c18FeedLog(ctx, cl, sw, &http.Client{Transport: srv}, 0)
 				release()
 				rep := map[string]any{"kind": "sumdb-proof", "from": p.from, "to": p.to, "base_url_with_path": p.prefixed, "content_type": p.ctype}
 				sig := func(k string) string {
@@ -384,7 +385,7 @@ func c18(tier string) int {
 		dry := &sumdbServer{hashes: srvAll.hashes, size: int64(p.to), latest: cpsGet(cps, u, origin, p.to)}
 		witCP := u.Sign(uni.Body(origin, uint64(p.from), u.Main.Root(p.from)), u.K1.Signer, u.W1.CosigSigner)
 		ctx0, rel0 := wh.NoRetryContext(context.Background())
-		_ = sumdb.FeedLog(ctx0, cl, &c18Witness{latest: witCP}, &http.Client{Transport: dry}, 0)
+		_ = c18FeedLog(ctx0, cl, &c18Witness{latest: witCP}, &http.Client{Transport: dry}, 0)
 		rel0()
 		for at := 0; at < dry.nreq; at++ {
 			for _, kind := range []string{"truncated", "zeros", "http-500", "conn-error"} {
@@ -407,7 +408,7 @@ func c18(tier string) int {
 					}
 					return true
 				})
-				err := sumdb.FeedLog(ctx, cl, sw, &http.Client{Transport: srv}, 0)
+				err := c18FeedLog(ctx, cl, sw, &http.Client{Transport: srv}, 0)
 				unhook()
 				cancel()
 				transient++
@@ -453,7 +454,7 @@ func c18(tier string) int {
 		pw := &c18PollWitness{latest: u.Sign(uni.Body(origin, 100, u.Main.Root(100)), u.K1.Signer, u.W1.CosigSigner), size: 100, u: u, origin: origin}
 		ctx, cancel := context.WithCancel(context.Background())
 		done := make(chan error, 1)
-		go func() { done <- sumdb.FeedLog(ctx, cl, pw, &http.Client{Transport: tr}, 40*time.Millisecond) }()
+		go func() { done <- c18FeedLog(ctx, cl, pw, &http.Client{Transport: tr}, 40*time.Millisecond) }()
 		for step, size := range []int{300, 700, 1100, 1200, 1201} {
 			pmu.Lock()
 			cur = size
@@ -568,6 +569,13 @@ func c18Addressing(run *ev.Run) int64 {
 				got := last()
 				want := "/" + tlog.Tile{H: 8, L: level, N: n, W: w}.Path()
 				evals++
+				if w == 256 && got == want {
+					// The client documents "partial > 0 => partial tile": 0
+					// names the full tile just as the feeder's -1 does.
+					_, _ = sc.TileData(level, int(n), 0)
+					got = last()
+					evals++
+				}
 				if got != want {
 					addrBad++
 					run.Report(fmt.Sprintf("tile-path kind=hash carry=%v partial=%v", n >= 1000, w < 256), fmt.Sprintf("TileData(level=%d, offset=%d, width=%d) requested %s, the reference tlog path is %s", level, n, w, got, want), map[string]any{"kind": "tile-path", "level": level, "n": n, "w": w})
@@ -681,4 +689,15 @@ func (w *c18PollWitness) Update(_ context.Context, _ string, old uint64, cp []by
 	w.size = n
 	w.latest = w.u.Sign(text, w.u.K1.Signer, w.u.W1.CosigSigner)
 	return w.latest, nil
+}
+
+// c18FeedLog is sumdb.FeedLog with a panic of the code under test turned into
+// the error of that cycle (a feed that panics did not deliver a proof).
+func c18FeedLog(ctx context.Context, l config.Log, w feeder.Witness, c *http.Client, interval time.Duration) (err error) {
+	defer func() {
+		if p := recover(); p != nil {
+			err = fmt.Errorf("sumdb.FeedLog panicked: %v", p)
+		}
+	}()
+	return sumdb.FeedLog(ctx, l, w, c, interval)
 }
